@@ -65,6 +65,9 @@ class _Clock:
         return self.t
 
 
+SUSPENDED = []
+
+
 def observe(mid, what):
     """Returns ('ok', value) or ('exc', exception type name)."""
     try:
@@ -83,18 +86,20 @@ def observe(mid, what):
                               mid.play(meta_messages=True, now=clock.now)]
             finally:
                 mf.time = saved
-        if what in ('play-abandoned', 'iter-abandoned'):
+        if what in ('play-abandoned', 'iter-abandoned', 'play-suspended', 'iter-suspended'):
             clock = _Clock()
             saved = mf.time
             mf.time = clock
             try:
-                gen = mid.play(meta_messages=True, now=clock.now) if what == 'play-abandoned' else iter(mid)
+                gen = mid.play(meta_messages=True, now=clock.now) if what.startswith('play') else iter(mid)
                 got = []
                 for m in gen:
                     got.append((type(m).__name__, dict(vars(m))))
                     if len(got) >= 2:
                         break
-                if hasattr(gen, 'close'):
+                if what.endswith('suspended'):
+                    SUSPENDED.append(gen)       # started, not finished, still referenced: stays that way for the whole case
+                elif hasattr(gen, 'close'):
                     gen.close()
                 return 'ok', got
             finally:
@@ -366,6 +371,7 @@ class Interp:
 
 def run_case(case):
     LAST_TAGS.clear()
+    del SUSPENDED[:]
     it = Interp()
     for op in case['ops']:
         it.step(op)
@@ -483,7 +489,8 @@ class FileMachine(RuleBasedStateMachine):
     def poke_yielded(self):
         self.ops.append(['poke_yielded'])
 
-    @rule(what=st.sampled_from(['iter', 'length', 'merged', 'play', 'save', 'play-abandoned', 'iter-abandoned']))
+    @rule(what=st.sampled_from(['iter', 'length', 'merged', 'play', 'save', 'play-abandoned', 'iter-abandoned', 'play-suspended',
+                                'iter-suspended']))
     def observe(self, what):
         self.ops.append(['observe', what])
 
@@ -529,7 +536,7 @@ def main(ctx):
     w = 8 if ctx.tier == 'quick' else 16
     ctx.pmap('machine_shard', [(k, n // w, 25 if ctx.tier == 'quick' else 40) for k in range(w)])
     # the documented two-message example and its variants, for every observation pair
-    for first in ('length', 'iter', 'merged', 'play', 'save', 'play-abandoned', 'iter-abandoned'):
+    for first in ('length', 'iter', 'merged', 'play', 'save', 'play-abandoned', 'iter-abandoned', 'play-suspended', 'iter-suspended'):
         for second in ('length', 'iter', 'merged', 'play', 'save'):
             for edit in (['poke_merged'], ['poke_yielded'], ['msg_set', 0, 0, 'time', 240.5], ['type', 0], ['add_track', 'x'], ['charset', 'utf-8'], ['msg_append', 0, 7, 10], ['msg_append', 0, 1, 480], ['msg_set', 0, 0, 'time', 960], ['msg_set', 0, 0, 'field', 5],
                          ['track_split', 0, 1], ['track_split', 0, 2], ['msg_set', 0, 0, 'time', -2],
